@@ -816,4 +816,4 @@ def replay_embedded_nul(a):
         shutil.rmtree(d, ignore_errors=True)
 
 
-SITES = {"C11": [scalar_typing, type_ref, short_form_tables, serde_number_typing, short_form_loader_agreement, scalar_bytes_wiring, loader_sequence_end], "C16": [serde_number_typing, short_form_loader_agreement, loader_sequence_end], "C10": [scalar_typing], "C08": [loader_stops_at_stream_end]}
+SITES = {"C11": [scalar_typing, type_ref, short_form_tables, serde_number_typing, short_form_loader_agreement, scalar_bytes_wiring, loader_sequence_end], "C16": [serde_number_typing, short_form_loader_agreement, loader_sequence_end, scalar_typing, type_ref], "C10": [scalar_typing], "C08": [loader_stops_at_stream_end, loader_sequence_end]}
